@@ -6,7 +6,7 @@ ID = "C15"
 CRATE = "c15"
 COQ_DIR = "C15"
 COQ_DEPS = []
-PROFILES = ["debug"]
+PROFILES = ["debug", "release"]
 CORR_IMPORT = "From RlibV Require Import C15.Model C15.Corr.\nOpen Scope Z_scope."
 AUDIT_IMPORT = ("From Coq Require Import ZArith NArith List Bool Sorting.Permutation Sorting.Sorted.\nImport ListNotations.\n"
                 "From RlibV Require Import C15.Model C15.Spec C15.Corr C15.ProofsSmall C15.Properties.\n")
